@@ -526,7 +526,8 @@ func (i *interpreter) formatArg(spec string, verb byte, arg value) *Term {
 		case isIntKind(v.k):
 			if verb == 'd' || verb == 'v' {
 				if spec == "%d" || spec == "%v" {
-					return termOf(i.ex.intToDigits(v.t))
+					// non-forking rendering (most formatted integers end up in log or error text)
+					return tIte(tCmp("<", v.t, mkInt64(0)), tConcat(mkStr("-"), mkApp("str.from_int", SStr, tNeg(v.t))), mkApp("str.from_int", SStr, v.t))
 				}
 			}
 		}
